@@ -15,24 +15,10 @@ import ir_parse               # noqa: E402
 import kernels                # noqa: E402
 
 
-def model_inputs(eng, model):
-    import z3
+def model_inputs(eng, model_vals):
     out = []
-    for kind, v in eng.inputs:
-        if isinstance(v, (int, bool, Fraction)):
-            val = v
-        else:
-            val = model.eval(v, model_completion=True)
-            if z3.is_int_value(val):
-                val = val.as_long()
-            elif z3.is_rational_value(val):
-                val = Fraction(val.numerator_as_long(), val.denominator_as_long())
-            elif z3.is_true(val) or z3.is_false(val):
-                val = z3.is_true(val)
-            elif z3.is_algebraic_value(val):
-                val = Fraction(val.approx(30).numerator_as_long(), val.approx(30).denominator_as_long())
-            else:
-                val = 0
+    for (kind, v), mv in zip(eng.inputs, model_vals):
+        val = Fraction(mv)
         if kind in ('double',):
             f = float(Fraction(val))
             out.append(('double', f.hex(), str(val)))
@@ -121,8 +107,8 @@ def run_symex(k, tier, kdir, seed, res):
     t0 = time.time()
     nq = 0
     for e, eng in engs:
-        symex.discharge(eng, eng.obls, tmo, axioms=eng.axioms)
-        nq += sum(1 for o in eng.obls if not getattr(o, 'trivial', False))
+        symex.discharge(eng, eng.obls, tmo, axioms=eng.axioms, jobs=k.get('jobs', 8))
+        nq += getattr(eng, 'queries_discharged', 0)
         if not eng.witness or not any(eng.feasible(w) for w in eng.witness):
             witness_ok = False
         nq += eng.stats['feas_queries']
@@ -143,9 +129,15 @@ def run_symex(k, tier, kdir, seed, res):
     inconclusive = []
     for e, eng in engs:
         res.setdefault('engine_stats', {})[e] = dict(eng.stats, steps=eng.steps, inputs=len(eng.inputs))
+        if eng.fp_exact_check:
+            res.setdefault('exactness_bridge', {})[e] = {
+                'fp_add_sub_mul_ops': eng.exact_ops, 'proved_exact_in_ieee': eng.exact_ops - len(eng.inexact),
+                'not_proved': eng.inexact[:10]}
+            if eng.inexact and k.get('require_exact'):
+                inconclusive.append('exactness bridge not established for %d operations' % len(eng.inexact))
         for o in eng.obls:
             rec = {'entry': e, 'kind': o.kind, 'id': o.ident, 'where': o.where, 'verdict': o.verdict,
-                   'seconds': round(o.seconds, 3), 'trivial': getattr(o, 'trivial', False)}
+                   'seconds': round(o.seconds, 3), 'trivial': getattr(o, 'trivial', False), 'cases': getattr(o, 'cases', 1)}
             obl_out.append(rec)
             if o.verdict == 'unsat':
                 continue
@@ -324,7 +316,7 @@ def main():
             engs, cands = run_symex(k, tier, kdir, seed, res)
             cand_list = []
             for e, eng, o in cands:
-                cand_list.append((o.kind, o.ident, model_inputs(eng, o.model)))
+                cand_list.append((o.kind, o.ident, model_inputs(eng, o.model_vals)))
         else:
             cfile, cand_list = run_cbmc(k, tier, kdir, seed, res)
         do_native = k.get('native', True)
